@@ -31,6 +31,8 @@ schema(A.Annotated, version='str?', version_doc='str?', skip='bool', introspecta
        deprecated_doc='str?', doc='str?', doc_position='Position?')
 schema(A.Node, namespace='Namespace?', name='str?', foreign='bool', file_positions='set', _parent='any')
 from givc.model import named_spec as _ns0, TypeSpec as _TS0, parse_spec as _ps0   # noqa
+# the signal list of a class / interface is its own list (never a list handed out by ElementTree)
+_ns0('SignalList', _TS0('list', (), False, _ps0('Signal'), region='node.signals'))
 # the lookup tables of a namespace are different dictionaries (ownership regions)
 _ns0('NsNames', _TS0('dict', (), False, _ps0('Node'), region='namespace.names'))
 _ns0('NsSymbols', _TS0('dict', (), False, _ps0('Node|Member'), region='namespace.symbols'))
@@ -70,7 +72,7 @@ for _c in (A.Class, A.Interface):
     schema(_c, ctype='str?', c_symbol_prefix='str?', parent_type='Type?', parent_chain='list[Type]',
            glib_type_struct='Type?', methods='list[Function]', virtual_methods='list[VFunction]',
            static_methods='list[Function]', constructors='list[Function]', properties='list[Property]',
-           fields='list[Field]', signals='list[Signal]')
+           fields='list[Field]', signals='SignalList')
 schema(A.Class, fundamental='bool', unref_func='str?', ref_func='str?', set_value_func='str?',
        get_value_func='str?', is_abstract='bool', is_final='bool', interfaces='list[Type]')
 schema(A.Interface, prerequisites='list[Type]')
